@@ -7,6 +7,10 @@ namespace mv {
 bool sameVal(const Val& a, const Val& b)
 {
     if (a.t == VUN || b.t == VUN) return true;
+    if (a.t == VNEG || b.t == VNEG) {
+        const Val& o = (a.t == VNEG) ? b : a;
+        return o.t == VNEG || (o.t == VI && o.i < 0);
+    }
     if (a.t == VINF || b.t == VINF) return a.t == b.t;
     if (a.t == VI && b.t == VI) return a.i == b.i;
     double x = a.num(), y = b.num();
